@@ -19,7 +19,10 @@ pub fn streams(rng: &mut Xoshiro256PlusPlus, n: usize) -> Vec<(&'static str, Vec
     v.push(("trending", (0..n).map(|i| i as f64 * 0.01 + rng.random::<f64>()).collect()));
     v.push(("trending-down", (0..n).map(|i| -(i as f64) * 0.01 + rng.random::<f64>()).collect()));
     v.push(("heavy-duplicate", (0..n).map(|_| rng.random_range(0..4) as f64).collect()));
-    v.push(("constant", (0..n).map(|_| 7.25).collect()));
+    v.push(("constant", (0..n).map(|_| 0.1).collect()));
+    v.push(("constant-dyadic", (0..n.min(200)).map(|_| 7.25).collect()));
+    v.push(("full-mantissa-ties", (0..n).map(|_| [0.1, 0.3, 0.7, 1.1][rng.random_range(0..4)]).collect()));
+    v.push(("mostly-one-value", (0..n).map(|i| if i % 17 == 3 { 0.3 } else { 1e-3 }).collect()));
     v.push(("uniform", (0..n).map(|_| rng.random::<f64>() * 100.0 - 50.0).collect()));
     v.push(("heavy-tail", (0..n).map(|_| { let u: f64 = rng.random::<f64>(); 1.0 / (u + 1e-9) }).collect()));
     v.push(("periodic", (0..n).map(|i| (i % 10) as f64).collect()));
